@@ -136,6 +136,11 @@ def reframed(name, v, rng):
         # writes them): valid BER, not DER
         for k in (1, 2, 4):
             out.append(bytes([0x30, 0x80 | k]) + v[1].to_bytes(k, 'big') + v[2:])
+    if short.startswith('TlsHandshake') and len(v) >= 4 and int.from_bytes(v[1:4], 'big') == len(v) - 4:
+        # a handshake message whose declared length covers more than its fields (RFC 5246 7.4: the length is that of the whole
+        # message): if it is accepted at all, it is consumed with the declared length
+        for k in (1, 3, rng.randint(4, 9)):
+            out.append(v[:1] + (len(v) - 4 + k).to_bytes(3, 'big') + v[4:] + bytes(rng.getrandbits(8) for _ in range(k)))
     if short.startswith('SshRecord') and len(v) > 5:
         for k in (1, 8, rng.randint(2, 40)):
             pl = int.from_bytes(v[0:4], 'big')
